@@ -13,7 +13,7 @@ from __future__ import annotations
 import ast
 
 from ..index import AnchorMissing, Unrecognised
-from ..astutil import u, body_walk, local_env, func_calls, walk_local, straightline_return, inline_locals, single_return_expr
+from ..astutil import linear_body, u, body_walk, local_env, func_calls, walk_local, straightline_return, inline_locals, single_return_expr
 from .. import sym
 
 EXPLANATION = ("Static role analysis of the FASTA index code: the five .fai columns have fixed roles; the reader's keys, the FastaIdx field order, every "
@@ -148,7 +148,7 @@ def r2_byte_arithmetic(ctx):
         e2 = inline_locals(e, env)
         return _subst_roles(e2, m)
     asg = {}
-    for x in f.node.body:
+    for x in linear_body(f.node):
         if isinstance(x, ast.Assign) and isinstance(x.targets[0], ast.Name):
             asg.setdefault(x.targets[0].id, []).append(x.value)
     def first(name):
@@ -167,12 +167,12 @@ def r2_byte_arithmetic(ctx):
     ctx.ob(f.where, "bytes are viewed as n_rows lines of LINEWIDTH bytes", ok, u(resh[0]) if resh else "", key="C17-R2|contig|reshape")
     ret = _subst_roles(first("ret"), m)
     ctx.ob(f.where, "the sequence is the first LINEBASES bytes of every line, truncated to LENGTH", ret == "data[(:, :LINEBASES)].ravel()[:LENGTH]", ret, key="C17-R2|contig|cols")
-    rets = [n for n in f.node.body if isinstance(n, ast.Return)]
+    rets = [n for n in linear_body(f.node) if isinstance(n, ast.Return)]
     ok = bool(rets) and sym.same(rets[0].value, "EncodedArray(ret, BaseEncoding)")
     ctx.ob(f.where, "the contig is returned as ASCII text, unchanged", ok, u(rets[0].value) if rets else "")
     # ---- interval reads, generic path
     g = ix.func(IF, "IndexedFasta.get_interval_sequences")
-    loop = [x for x in g.node.body if isinstance(x, ast.For)]
+    loop = [x for x in linear_body(g.node) if isinstance(x, ast.For)]
     ctx.need(len(loop) == 1, "generic interval path: per-interval loop not found")
     lb = loop[0].body
     it = u(loop[0].target)
@@ -238,7 +238,7 @@ def r2_byte_arithmetic(ctx):
     ctx.ob(h.where, "fast path: crossed line breaks = B // LINEBASES - A // LINEBASES", rch(envh["n_rows"]) == sym.canon(sym.parse_expr("B // LINEBASES - A // LINEBASES")),
            rch(envh["n_rows"]), key="C17-R2|fast|rows")
     ctx.ob(h.where, "fast path: row lengths = B - A", rch(envh["lengths"]) == sym.canon(sym.parse_expr("B - A")), rch(envh["lengths"]), key="C17-R2|fast|lengths")
-    loops = [x for x in h.node.body if isinstance(x, ast.For)]
+    loops = [x for x in linear_body(h.node) if isinstance(x, ast.For)]
     ctx.need(len(loops) == 1 and isinstance(loops[0].target, ast.Tuple) and isinstance(loops[0].iter, ast.Call) and u(loops[0].iter.func) == "zip", "fast path: zip loop not found")
     tv = [e.id for e in loops[0].target.elts]
     za = [rch(a) for a in loops[0].iter.args]
